@@ -236,6 +236,10 @@ class Executor(EvalMixin, StmtMixin):
         return None
 
     def class_static_attr(self, cls, name):
+        if cls.module is not None:
+            ov = getattr(self.world, 'global_overrides', {}).get('%s.%s.%s' % (cls.module.name, cls.name, name))
+            if ov is not None:
+                return ov(self)       # class-level mutable state modelled symbolically (declared by the contracts)
         if cls.info is not None:
             for k in self.world.repo.mro(cls.info):
                 if name in k.methods:
@@ -337,6 +341,10 @@ class Executor(EvalMixin, StmtMixin):
                     args += list(v.items)
                 elif isinstance(v, SV) and v.shape is ValS:
                     args.append(v)        # *<opaque sequence>: passed on as one opaque argument
+                elif isinstance(v, SRef) and v.shape.cls in CONTAINERS and CONTAINERS[v.shape.cls][0] == 'list' and \
+                        isinstance(fn, (VBound, VExternal)) or (isinstance(v, SRef) and v.shape.cls in CONTAINERS and
+                                                                 type(fn).__name__ == '_BoundExt'):
+                    args.append(v)        # *<heap list> to a foreign callable: passed on as one argument
                 else:
                     raise Unsupported('*args of a symbolic sequence in call to %s' % fname)
             else:
